@@ -41,6 +41,21 @@ Record static_row := {
   s_constexpr : bool; s_const : bool; s_static_local : bool; s_thread_local : bool
 }.
 
+(* one member function of a factory class *)
+Record gfactory := {
+  gf_class : string;                  (* expr_factory, type_factory, ..., Lexicon *)
+  gf_name : string;
+  gf_sorts : list string;             (* parameter sorts: E, T, R, I, S, T? (Optional<Type>), q, ph, ... *)
+  gf_result : string;                 (* class of the node returned *)
+  gf_bases : list string;             (* interface classes the aliases of the result may be declared in *)
+  gf_shape : string;                  (* Unary / Binary / Ternary / Other: generic storage of the result's interface *)
+  gf_defined : bool;
+  gf_body : string;                   (* make.with_type / farm.make / table.insert / delegate / other *)
+  gf_farm : string;                   (* store the body builds the node in, "" if the body is opaque *)
+  gf_call : option (list (option nat)); (* constructor arguments, as parameter indices; None = opaque body *)
+  gf_with_type : option nat           (* parameter handed to with_type *)
+}.
+
 Inductive lex_acc :=
 | AccSpecifierWord (w : string) | AccQualifierWord (w : string)
 | AccBuiltin (enumerator : string) | AccConstant (var : string) | AccUntranslatable.
